@@ -145,12 +145,53 @@ SPECS = [
 ]
 
 
+COMPOUND = "autofit/mapper/prior/arithmetic/compound.py"
+
+
+def modified_prior_cls_variant(repo):
+    """Variant switch read from the source (ext-tree): what `ModifiedPrior.cls` returns.
+    False: `return self.prior.cls` -- an AttributeError when the operand is a Prior (finding C12 modified-prior-cls);
+    True:  `getattr(self.prior, "cls", float)` -- falls back to float (proposed_fixes/C12-modified-prior-cls.diff).
+    Anything else is a TranslationError (the model has to be looked at again)."""
+    import warnings
+    with warnings.catch_warnings():
+        warnings.simplefilter("ignore")
+        tree = ast.parse(open(os.path.join(repo, COMPOUND)).read())
+    for cls in [n for n in tree.body if isinstance(n, ast.ClassDef) and n.name == "ModifiedPrior"]:
+        for fn in [n for n in cls.body if isinstance(n, ast.FunctionDef) and n.name == "cls"]:
+            rets = [n for n in ast.walk(fn) if isinstance(n, ast.Return)]
+            if len(rets) == 1:
+                src = ast.unparse(rets[0].value).replace("'", '"')
+                if src == "self.prior.cls":
+                    return False, src, fn.lineno
+                if src == 'getattr(self.prior, "cls", float)':
+                    return True, src, fn.lineno
+            raise T.TranslationError("ModifiedPrior.cls has a shape the C12 model does not know: %s" % ast.unparse(fn)[:200])
+    raise T.TranslationError("ModifiedPrior.cls not found in %s" % COMPOUND)
+
+
 def regenerate(repo=None):
     old = T.Tr
     T.Tr = Tr12
+    out = os.path.join(common.COQ, "C12", "Gen.v")
     try:
-        return T.generate(repo or common.REPO, SPECS, os.path.join(common.COQ, "C12", "Gen.v"),
-                          "C12 leaf formulas of prior passing (widths, bounds, tightened limits, rejection tests)")
+        tmp = out + ".gen"           # (written only when the final text differs: an unchanged Gen.v is not recompiled)
+        if os.path.exists(tmp):
+            os.remove(tmp)
+        infos = T.generate(repo or common.REPO, SPECS, tmp,
+                           "C12 leaf formulas of prior passing (widths, bounds, tightened limits, rejection tests)")
+        flag, src, line = modified_prior_cls_variant(repo or common.REPO)
+        extra = ("(* %s:ModifiedPrior.cls line %d -- variant switch: does the class of a unary arithmetic prior fall back to float\n"
+                 "     when its operand has none (a Prior)?\n     %s *)\n"
+                 "Definition modified_prior_cls_falls_back : bool := %s.\n" % (COMPOUND, line, src, "true" if flag else "false"))
+        text = open(tmp).read()
+        os.remove(tmp)
+        text = text + ("" if text.endswith("\n") else "\n") + extra
+        if not os.path.exists(out) or open(out).read() != text:
+            with open(out, "w") as f:
+                f.write(text)
+        infos["modified_prior_cls_falls_back"] = {"source": src, "line": line}
+        return infos
     finally:
         T.Tr = old
 
@@ -221,6 +262,8 @@ def places(e, out, holder=None, parent_key=None):
     elif t == "arith":
         places(e["l"], out, ("arith", None, None))
         places(e["r"], out, ("arith", None, None))
+    elif t == "unary":
+        places(e["a"], out, ("arith", None, None))
     elif t == "model":
         for arg, kind, extra in MG.SIGNATURES[e["cls"]]:
             sub = e["kw"][arg]
@@ -270,10 +313,30 @@ def tightened(spec, lim):
     return max(lo, unhex(spec["lo"])), min(hi, unhex(spec["hi"]))
 
 
+def unary_over_prior(e):
+    """Does the composition hold a unary arithmetic prior (-x, abs(x), or the -y inside x - y) whose operand -- through
+    further unary forms -- is a prior?  (Its `cls` does not exist: finding modified-prior-cls.)"""
+    t = e["t"]
+
+    def clsless(x):
+        return x["t"] == "prior" or (x["t"] == "unary" and clsless(x["a"]))
+    if t == "unary":
+        return clsless(e["a"]) or unary_over_prior(e["a"])
+    if t == "arith":
+        if e["op"] == "-":
+            neg = e["r"] if e["l"]["t"] == "const" else (e["r"] if e["r"]["t"] != "const" else None)
+            if neg is not None and clsless(neg):
+                return True
+        return unary_over_prior(e["l"]) or unary_over_prior(e["r"])
+    return any(unary_over_prior(ch) for ch in C01.children(e))
+
+
 def classes_of(c):
     """Finding classes, computed from the case alone."""
     prog, mode = c["program"], c["mode"]
     out = ["mode:" + mode["k"]] + ["feature:" + f for f in prog["features"]]
+    if mode["k"] == "means" and unary_over_prior(prog["root"]):
+        out.append("modified-prior-over-prior")
     k = mode["k"]
     n = len(prog["pool"])
     if k == "bounded":
@@ -357,6 +420,8 @@ def used_refs(e, out):
         out.add(e["ref"])
     elif t == "arith":
         used_refs(e["l"], out), used_refs(e["r"], out)
+    elif t == "unary":
+        used_refs(e["a"], out)
     elif t == "tuple":
         for m in e["members"]:
             used_refs(m, out)
@@ -383,6 +448,8 @@ def renumber(prog):
             e["ref"] = new[e["ref"]]
         elif t == "arith":
             ren(e["l"]), ren(e["r"])
+        elif t == "unary":
+            ren(e["a"])
         elif t == "tuple":
             for m in e["members"]:
                 ren(m)
@@ -496,7 +563,8 @@ def gen_case(ctx, thorough):
     while True:
         g = MG.Gen(rng, max_depth=rng.choice([1, 2, 2, 3] if thorough else [1, 2, 2]),
                    big_tuples=rng.random() < (0.25 if thorough else 0.1),
-                   families=("uniform", "uniform", "gaussian", "loguniform"))
+                   families=("uniform", "uniform", "gaussian", "loguniform"),
+                   more_ops=rng.random() < 0.4, pow_ops=False)     # - neg abs % // (ModelTree: NUn, OMod, OFloorDiv)
         prog = g.program()
         extras = specialise(prog, rng)
         n = len(prog["pool"])
@@ -668,6 +736,7 @@ def expect_success(c):
 KNOWN_BY_MESSAGE = [
     # (prefix of the oracle message, finding class that can explain it, required exception or None)
     ("passing raised", "bounded-absorbed", "PriorException"),
+    ("passing raised", "modified-prior-over-prior", "AttributeError"),
 ]
 
 
@@ -1142,7 +1211,8 @@ def run_sessions(ctx, sessions):
 
 # ---- Coq printers ---------------------------------------------------------
 FAM = {"uniform": "FUniform", "gaussian": "FGaussian", "loguniform": "FLogUniform", "loggaussian": "FLogGaussian"}
-EXC = {"MessageException": "EMessage", "PriorException": "EPrior", "IndexError": "EIndex", "KeyError": "EKey", "TypeError": "EType"}
+EXC = {"MessageException": "EMessage", "PriorException": "EPrior", "IndexError": "EIndex", "KeyError": "EKey", "TypeError": "EType",
+       "AttributeError": "EAttr"}
 
 
 def coq_wm(w):
@@ -1231,6 +1301,8 @@ def tree_wf(t):
         return all(c["t"] in ("prior", "const") for _, c in t["members"]) and len(set(pos)) == len(pos)
     if k == "arith":
         return tree_wf(t["l"]) and tree_wf(t["r"]) and (t["ln"] != t["rn"] or t["l"] == t["r"])
+    if k == "unary":
+        return tree_wf(t["a"])
     if k == "model":
         return all(tree_wf(c) for _, c in t["attrs"])
     if k == "coll":
@@ -1365,6 +1437,10 @@ def run(ctx):
         else:
             coq_cases.append(cc)
             coq_idx.append(i)
+            for f_ in sorted(C01.tree_features(r["orig"]["tree"])):
+                ctx.hist("correspondence:unary-features (%s)" % ("fixed" if c["mode"]["k"] == "fixed" else "passing"), f_)
+            if "modified-prior-over-prior" in cls:
+                ctx.hist("correspondence:means over a unary form of a prior", "ok" if "ok" in r["out"] else r["out"]["exc"])
         if i % 70 == 0:
             ctx.sample({"mode": {k: (v if not isinstance(v, list) or len(v) < 8 else v[:8] + ["..."]) for k, v in c["mode"].items()},
                         "features": prog["features"], "n_priors": len(prog["pool"]),
@@ -1546,7 +1622,10 @@ MANIFEST = {
     "note": "Trusted: Coq kernel + vm_compute; translator; harness abstraction of live objects; config table read by the harness. Known "
             "finding (suppressed, narrow class): bounded-absorbed; the pinned cases of the nine repaired "
             "findings are regression obligations. Not modelled: AnnotationPriorModel, Array models, deferred arguments, "
-            "subtraction / negated priors, excluded_classes of copy_with_fixed_priors, the message object of a prior (oracle only), "
+            "** Log Log10 (subtraction as a + (-b), negation, abs, % and // are inside the model since ext-tree: NUn, OMod, OFloorDiv; "
+            "known finding modified-prior-over-prior: mapper_from_prior_means raises AttributeError for -p / abs(p) / p - q over a prior, "
+            "modelled (Exc EAttr) under the source-detected switch Gen.modified_prior_cls_falls_back, guard cls_ok of the means theorems), "
+            "excluded_classes of copy_with_fixed_priors, the message object of a prior (oracle only), "
             "name-keyed (samples.csv) samples in sessions, Samples.subsamples (full sample lists), jax; arithmetic theorems are over exact rationals; in binary64 `relative and absolute widths from a "
             "non-negative factor are never negative` is a theorem for all floats (FloatAxioms of the Coq library, via coq/Common/Float64Order.v; "
             "the former grid statement is kept as an axiom-free computation), everything else binary64 is by correspondence.",
